@@ -122,6 +122,9 @@ func propC02(c *Ctx, r *Report) {
 		"spirv/internal/codegen.atomicOpcode:OpAtomicFAddEXT": "AtomicFloat32AddEXT is declared when the atomic<f32> type is emitted (emitType, AtomicType arm), and the pointer operand of every float atomic has that type",
 	})
 	r.floor("cap.opcode", 40)
+	r.Clauses = append(r.Clauses, "cache keys follow what is written (E63): where a type-emitting function writes a field of its parameter only through a mapping function, the key function of its cache uses the mapped value too - keyed on the raw field, two values mapped to the same operand declare the same non-aggregate type twice")
+	c.runCacheKeyMapped(r, "cachekey.mapped", "spirv/internal/codegen")
+	r.floor("cachekey.mapped", 1)
 	r.floor("width.suffix", 6)
 	r.Clauses = append(r.Clauses, "merge before branch (E28, go/cfg must-analysis): in every function of the SPIR-V emitter, on every control-flow path to the emission of an OpBranchConditional or OpSwitch terminator an OpSelectionMerge / OpLoopMerge has been emitted before (directly, through a builder method or through a local closure)")
 	r.Clauses = append(r.Clauses, cacheKeyClause)
